@@ -498,3 +498,16 @@ register("C04", title="exactly-once, in-order resume", pkg="./internal/api",
               "distinct = (number of replicas, sequence of resume situations)",
          floor={"quick": 300, "thorough": 6000},
          technique="client-side history check (unique payloads: order, no duplicate, no gap) over the real HTTP long-poll path")
+
+
+register("C05", title="acknowledged messages survive crashes and fail-over", pkg=".",
+         parts=[{"name": "main", "test": "^TestVerifC05A$", "children": {"quick": 8, "thorough": 16}, "cases": {"quick": 1, "thorough": 12}}],
+         timeout={"quick": 600, "thorough": 3000}, level="fault_enumeration", parallel=8,
+         rule="harness A: a child process runs an in-process node (real stores on a persistent directory, real FSM, single-voter raft, real API on a fixed "
+              "loopback address); 3 senders post uniquely numbered PRIVMSGs with fresh client message ids and retry the same id until acknowledged, 2 "
+              "observers follow the stream with lastseen resumes, while the parent SIGKILLs and restarts the node at seeded moments (3-5 times per round, "
+              "sometimes right after a forced /snapshot). After the faults stop a sentinel is posted and every observer's stream is fetched from the start: "
+              "every acknowledged payload exactly once, unacknowledged at most once, per-sender order, live stream == fetched stream. evaluations = "
+              "(payload, observer) pairs judged; distinct = (kills, snapshots, open posts)",
+         floor={"quick": 300, "thorough": 5000},
+         technique="client-side history checking (unique payloads, open operations kept open) under SIGKILL/restart fault injection")
